@@ -37,7 +37,7 @@ mvars == <<i, case, sent, replied, away, answers, called, answeredN, live, maybe
 
 E == Ext[i]
 
-Verdict(prop, kind, detail) == PrintT(<<"VERDICT", case, prop, kind, detail>>)
+Verdict(prop, kind, detail) == PrintT("VERDICT " \o ToString(<<case, prop, kind, detail>>))
 
 Fresh ==
   /\ sent' = <<>> /\ replied' = <<>> /\ away' = {} /\ answers' = <<>> /\ called' = <<>>
